@@ -131,6 +131,7 @@ func OracleC07(tr *Trace) Verdict {
 	}
 	v.Nontrivial = len(classes) > 0
 	v.Classes = append(v.Classes, fmt.Sprintf("terms=%d", min(len(claims), 4)))
+	tr.markPlainDeleteConsequences(&v, "C07")
 	sortViols(v.Viols)
 	return v
 }
